@@ -37,6 +37,13 @@ def _sym(x):
 
 
 def _anysym(it):
+    if isinstance(it, dict) and type(it) is not dict:
+        # OrderedDict iteration may look keys up by hash
+        with hash_ok():
+            for x in it:
+                if type(x) is SymStr:
+                    return True
+        return False
     for x in it:
         if type(x) is SymStr:
             return True
@@ -55,7 +62,9 @@ def _scan(d, k):
     """the key of d that equals k, else _MISSING.  Linear scan with symbolic equality =
     dict semantics without relying on hashes."""
     ks = type(k) is SymStr
-    for kk in list(d.keys()):
+    with hash_ok():
+        keys = list(d.keys())
+    for kk in keys:
         if ks or type(kk) is SymStr:
             if isinstance(kk, (str, SymStr)) and _eq(k, kk):
                 return kk
@@ -236,6 +245,11 @@ def _dict_method(slf, f, a, k):
         return _vf_setitem(slf, a[0], a[1])
     elif nm == '__delitem__':
         return _vf_delitem(slf, a[0])
+    elif nm in ('items', 'keys', 'values'):
+        if type(slf) is not dict and _anysym(slf):
+            # OrderedDict views look every key up by hash while iterating: materialise
+            with hash_ok():
+                return list(f())
     elif nm in ('copy', 'fromkeys', 'popitem', 'clear', 'move_to_end'):
         with hash_ok():
             return f(*a, **k)
